@@ -194,29 +194,53 @@ def work_logic(lname):
         results += classical_literals(logic, funcs)
     return results, funcs
 
-def classical_literals(logic, funcs):
-    """F: drive the real closure rules on real one/two-node branches for identity/existence literals"""
-    from pytableaux.proof import Tableau, swnode
+def classical_cases():
     from pytableaux.lang import Predicate, Constant
-    L = logic.Meta.name
+    from bounded.args import distinct_equal
     a, b = Constant(0, 0), Constant(1, 0)
     I, E = Predicate.Identity, Predicate.Existence
+    a2, b2 = distinct_equal(a), distinct_equal(b)        # equal to a / b but other objects (the item cache is bounded, not an interning table)
+    return [('~a=a', lambda: [~I((a, a))], True), ('a=a', lambda: [I((a, a))], False), ('~a=b', lambda: [~I((a, b))], False), ('a=b', lambda: [I((a, b))], False),
+             ('~!a', lambda: [~E((a,))], True), ('!a', lambda: [E((a,))], False), ('a=b,~a=b', lambda: [I((a, b)), ~I((a, b))], True),
+             ('!a,~!b', lambda: [E((a,)), ~E((b,))], True),
+             ("~a=a'", lambda: [~I((a, a2))], True), ("~a'=a", lambda: [~I((a2, a))], True), ("a=a'", lambda: [I((a, a2))], False),
+             ("a=b,~a'=b'", lambda: [I((a, b)), distinct_equal(~I((a2, b2)))], True), ("~a'=b',a=b", lambda: [distinct_equal(~I((a2, b2))), I((a, b))], True),
+             ("~!a'", lambda: [distinct_equal(~E((a2,)))], True)]
+
+def run_classical_case(logic, label, mk, want):
+    "-> (ok | None when the case cannot be built, fired rule, closed in the proof loop)"
+    from pytableaux.proof import Tableau, swnode
+    from bounded.args import roll_cache
     w = 0 if logic.Meta.modal else None
-    cases = [('~a=a', [~I((a, a))], True), ('a=a', [I((a, a))], False), ('~a=b', [~I((a, b))], False), ('a=b', [I((a, b))], False),
-             ('~!a', [~E((a,))], True), ('!a', [E((a,))], False), ('a=b,~a=b', [I((a, b)), ~I((a, b))], True),
-             ('!a,~!b', [E((a,)), ~E((b,))], True)]
+    if "'" in label: roll_cache()            # nothing equal is in the cache: the primed items stay distinct objects
+    sents = mk()
+    if label in ("~a=a'", "~a'=a", "a=a'"):
+        s0 = sents[0]
+        lhs, rhs = (s0.operands[0] if hasattr(s0, 'operands') and s0.operands else s0).params
+        if lhs is rhs: return None, None, None
+    tab = Tableau(logic)
+    br = tab.branch()
+    for s in sents: br.append(swnode(s, w))
+    fired = None
+    for rc in logic.Rules.closure:
+        rule = tab.rules.get(rc.__name__)
+        if rule.target(br): fired = rc.__name__; break
+    # the same literals through the proof loop (the closure rules see the nodes through their AFTER_NODE_ADD listeners)
+    tab2 = Tableau(logic); br2 = tab2.branch()
+    for s in sents: br2.append(swnode(s, w))
+    tab2.build()
+    return (bool(fired) == want and br2.closed == want), fired, br2.closed
+
+def classical_literals(logic, funcs):
+    """F: drive the real closure rules on real one/two-node branches for identity/existence literals; primed constants are
+    equal to the unprimed ones but other objects"""
+    L = logic.Meta.name
     out = []
-    for label, sents, want in cases:
-        tab = Tableau(logic)
-        br = tab.branch()
-        for s in sents: br.append(swnode(s, w))
-        fired = None
-        for rc in logic.Rules.closure:
-            rule = tab.rules.get(rc.__name__)
-            if rule.target(br): fired = rc.__name__; break
-        ok = bool(fired) == want
-        out.append(discharge(enum_ob(f'C05.{L}.classical.[{label}]', ok, logic=L, literals=label, fired=fired, want_closed=want,
-                                     cex=dict(literals=label, fired=fired, want_closed=want))))
+    for label, mk, want in classical_cases():
+        ok, fired, closed = run_classical_case(logic, label, mk, want)
+        if ok is None: out.append(Result(f'C05.{L}.classical.[{label}]', 'unknown', detail='could not build non-identical equal constants (item cache too large)')); continue
+        out.append(discharge(enum_ob(f'C05.{L}.classical.[{label}]', ok, logic=L, literals=label, fired=fired, closed_by_build=closed, want_closed=want,
+                                     cex=dict(literals=label, fired=fired, closed_by_build=closed, want_closed=want))))
     for rc in logic.Rules.closure:
         for nm in ('_branch_target_hook', 'node_will_close_branch'):
             for c in rc.__mro__:
@@ -272,7 +296,12 @@ def replay(payload):
     tab = Tableau(logic); br = tab.branch()
     parsed = []
     for t in lits.split(','):
-        if '=' in t or '!' in t: return dict(reproduced=None, detail='classical identity/existence case: see fired/want_closed in meta')
+        if '=' in t or '!' in t:
+            for label, mk, want in classical_cases():
+                if label == lits:
+                    ok, fired, closed = run_classical_case(logic, label, mk, want)
+                    return dict(reproduced=(ok is False), detail=f"{L}: a branch holding exactly the literals {label} (primed constants are equal to the unprimed ones but other objects, as after the bounded item cache rolls over): closure rule fired={fired}, closed by Tableau.build()={closed}; unsatisfiable={want}")
+            return dict(reproduced=None, detail='unknown classical case')
         neg = t.startswith('~'); d = {'+': True, '-': False}.get(t[-1])
         br.append(sdwnode(~p if neg else p, d, w)); parsed.append((neg, d))
     closed = any(tab.rules.get(rc.__name__).target(br) for rc in logic.Rules.closure)
